@@ -47,7 +47,14 @@ def verify(node, pl, res, phase, sig_base, witness, buffered):
         lost = sorted(k for k in A if k not in by_k and k not in replay_ks)
         dup = sorted(k for k, rs in by_k.items() if len(rs) > 1)
         foreign = sorted(str(k) for k in by_k if k not in A and k not in U)
+        if buffered and phase != "after_crash_restart":
+            # what the buffered WAL legitimately lost at the crash stays lost; it is not a new loss of the later phases
+            gone = getattr(pl, "buffered_lost", {}).get(etype, set())
+            lost = [k for k in lost if k not in gone]
         if buffered and phase == "after_crash_restart" and lost:
+            if not hasattr(pl, "buffered_lost"):
+                pl.buffered_lost = {}
+            pl.buffered_lost[etype] = set(lost)
             # weakened clause: per context (hence per shard) the survivors of one process lifetime form a prefix of that lifetime's
             # apply order (an earlier crash of the same history may already have cost the tail of an earlier lifetime)
             lost_set = set(lost)
